@@ -579,7 +579,7 @@ func TestC19(t *testing.T) {
 		t.Fatal("VERIF_FORWARDER_BIN not set (the check driver builds cmd/forwarder from the working tree)")
 	}
 	s := explore.NewSuite(t, "C19", "exploration",
-		"the real forwarder binary (built from the working tree without hooks) is started for every combination of carrier(6: --basic-auth, --api-basic-auth, --proxy userinfo, --credentials, data: URI of --tls-key-file, data: URI of --mitm-cakey-file, the scheme spelt data: / Data: / DATA: - a spelling the binary takes for a file name makes it refuse to start and demands nothing) x secret(6 passwords incl. ':', '@', '%41', non-ASCII with '/', space) x form(flag, FORWARDER_* environment, YAML config file) x log level(3) x log-http mode(errors, none, short-url, url) with at most D deviations (D=2 quick) or as the full product (thorough, inadmissible combinations skipped); successful exchanges (GET through the upstream proxy or with injected site credentials, CONNECT), /configz, then a 407 and an upstream failure; stdout+stderr after the successful exchanges and at exit (not for log-http=errors), the /configz body and the error responses are searched for the secret literally, URL-escaped and base64-encoded (alone and as user:secret); the redaction placeholder and the user names must be present; plus (error-responses, in-process proxy on the virtual clock) password(7, incl. one of 300 octets) x {--proxy userinfo, --credentials entry for the proxy} x {http upstream, socks5 upstream, PAC result SOCKS4 / SOCKS (unsupported) with a table entry for that proxy} x {GET, CONNECT through the upstream proxy} x 7 upstream faults (refused, black-holed, 403/no acceptable method, 407/credentials rejected, never answers [one virtual minute], closes, garbage) [full product]: the response sent to the client is searched in the same way; plus (other-commands-with-an-inline-key) forwarder pac server / forwarder test httpbin with --protocol https and an inline --tls-key-file x {flag, environment} x log level: start-up log searched for the key; plus (refused-at-start-up) the binary started with a configuration that is refused as a whole - two --credentials entries for the same key (exact, host:*, *:*) or a well-formed secret next to an invalid other option - x password x {flag, environment} x log level [full product]: everything it prints before it exits is searched; plus (request-log-lines, in-process) two proxy instances in one process with their own log-http modes - A in {errors, headers, body} serving 1-2 exchanges answered 503 with injected site credentials, then B in {short-url, url, none, errors} serving a successful one - x password(6) [full product]: B's request log lines are searched; non-trivial = the binary served the exchanges and was scanned")
+		"the real forwarder binary (built from the working tree without hooks) is started for every combination of carrier(6: --basic-auth, --api-basic-auth, --proxy userinfo, --credentials, data: URI of --tls-key-file, data: URI of --mitm-cakey-file, the scheme spelt data: / Data: / DATA: - a spelling the binary takes for a file name makes it refuse to start and demands nothing) x secret(6 passwords incl. ':', '@', '%41', non-ASCII with '/', space) x form(flag, FORWARDER_* environment, YAML config file) x log level(3) x log-http mode(errors, none, short-url, url) with at most D deviations (D=2 quick) or as the full product (thorough, inadmissible combinations skipped); successful exchanges (GET through the upstream proxy or with injected site credentials, CONNECT), /configz, then a 407 and an upstream failure; stdout+stderr after the successful exchanges and at exit (not for log-http=errors), the /configz body and the error responses are searched for the secret literally, URL-escaped and base64-encoded (alone and as user:secret); the redaction placeholder and the user names must be present; plus (error-responses, in-process proxy on the virtual clock) password(7, incl. one of 300 octets) x {--proxy userinfo, --credentials entry for the proxy} x {http upstream, socks5 upstream, PAC result SOCKS4 / SOCKS (unsupported) with a table entry for that proxy} x {GET, CONNECT through the upstream proxy} x 7 upstream faults (refused, black-holed, 403/no acceptable method, 407/credentials rejected, never answers [one virtual minute], closes, garbage) [full product]: the response sent to the client is searched in the same way; plus (other-commands-with-an-inline-key) forwarder pac server / forwarder test httpbin with --protocol https and an inline --tls-key-file x {flag, environment} x log level: start-up log searched for the key; plus (refused-at-start-up) the binary started with a configuration that is refused as a whole - two --credentials entries for the same key (exact, host:*, *:*) or a well-formed secret next to an invalid other option - x password x {flag, environment} x log level [full product]: everything it prints before it exits is searched; plus (request-log-lines, in-process) two proxy instances in one process with their own log-http modes - A in {errors, headers, body} serving 1-2 exchanges answered 503 with injected site credentials, then B in {short-url, url, none, errors} serving a successful one - x password(6) [full product]: B's request log lines are searched; non-trivial = the binary served the exchanges and was scanned; (round 9) log-http values that name a covered mode per module next to an unnamed default of headers (proxy:url,api:errors,headers / headers,proxy:short-url,api:none)")
 	s.Assume = []string{"real time is used only as a liveness guard for the subprocess (no timing oracle)", "loopback TCP is available in the sandbox", "CLI usage errors that echo an inadmissible argument are outside the statement"}
 	s.Add(explore.Scenario{Name: "bounded", Tiers: []string{"quick"}, MaxDev: map[string]int{"quick": 2}, Run: func(x *explore.X) { scenario(x, bin) }})
 	s.Add(explore.Scenario{Name: "product", Tiers: []string{"thorough"}, Run: func(x *explore.X) { scenario(x, bin) }})
